@@ -65,7 +65,8 @@ def run(tier, seed, only=None):
     t = symarray("t", (3,))
     pos = [gt(a, 0), gt(b, 0), gt(k, 0)]
     fixed = {"a": 1.7, "b": 1.3, "k": 2.0}
-    cfgs = [("symL_2x2", [K.surface(2, 2, True)]), ("full_2x3", [K.surface(2, 3, False)])]  # the full-span case admits y translations
+    # the full-span case admits y translations; the 3x2 case has two chordwise panels (offsets between chordwise rows)
+    cfgs = [("symL_2x2", [K.surface(2, 2, True)]), ("full_2x3", [K.surface(2, 3, False)]), ("symL_3x2", [K.surface(3, 2, True)])]
     if tier == "thorough":
         cfgs += [("symL_2x3+full_2x3", [K.surface(2, 3, True), K.surface(2, 3, False, name="tail")]), ("full_3x3", [K.surface(3, 3, False)])]
     for (cn, ss) in cfgs:
